@@ -691,7 +691,10 @@ def do_path_reverse(p, kind):
                            "reversed": out[0], "reversed_twice": enc_path(rrp) if ec2 == 0 else f"error {ec2}"},
                           failing_input_found=True)
         # definition of the reversed rays: x[k, i, j] == y[d-1-k, j, i]
-        if p.rays is not None:
+        if p.rays is not None and rp.rays is None:
+            chk.violation("path:rays-lost", "Path.reverse lost the rays of a path that has rays",
+                          {"path": e_in, "rays": enc_rays(p.rays)}, failing_input_found=True)
+        elif p.rays is not None:
             x, y = p.rays.indices, rp.rays.indices
             if not (np.array_equal(x, np.swapaxes(y, 1, 2)[::-1]) and np.array_equal(p.rays.times, rp.rays.times.T)):
                 chk.violation("path:rays", "reversed rays are not the same rays travelled backwards",
@@ -711,8 +714,22 @@ for (s, r), paths in sorted(good_paths.items()):
                 continue
             q = c.Path(p.interfaces, p.materials, p.modes, name=p.name)
             if with_rays:
+                if rng.random() < 0.5:
+                    # history: the path is reversed once BEFORE its rays exist (as a caller that builds
+                    # reciprocal paths ahead of ray tracing does); later reversals must see the rays
+                    call(q.reverse)
+                    chk.count(path_reverse_history="reversed before rays were assigned")
                 q.rays = random_rays(q)
             do_path_reverse(q, "config")
+            if with_rays:
+                # ... and replacing the rays after a reversal must be seen by the next reversal
+                old_rays = q.rays
+                q.rays = random_rays(q)
+                ec_h, rp_h = call(q.reverse)
+                if ec_h == 0 and (rp_h.rays is None or not np.array_equal(rp_h.rays.times, q.rays.times.T)):
+                    chk.violation("path:stale-rays", "Path.reverse returns stale rays after the path's rays were replaced",
+                                  {"path(name,modes,materials,interfaces)": enc_path(q), "rays_now": enc_rays(q.rays),
+                                   "reversed_rays": enc_rays(rp_h.rays)}, failing_input_found=True)
 # arbitrary paths (including irreversible interfaces: kind given without transmission/reflection)
 valid_ifaces = [code for (code, ec, _) in new_cases if ec == 0]
 for _ in range(40 if Q else 600):
